@@ -145,10 +145,10 @@ pub fn c10_wm(g: &mut Gen) {
         let mut lines = vec![format!("wm A from u8 {}", vals_str(&vals))];
         for seq in call_sequences(&crate::gen_bv::de_alphabet(n), depth) { lines.push(format!("wm A it items : {}", seq.join(" "))); }
         for seq in call_sequences(&crate::gen_bv::fwd_alphabet(n), depth) { lines.push(format!("wm A it into : {}", seq.join(" "))); }
-        let alpha: Vec<String> = vec!["n", "N0", "N1", "N2", "N7"].into_iter().map(|s| s.to_string()).collect();
+        let alpha: Vec<String> = vec!["n", "N0", "N1", "N2", "N7", "c", "L"].into_iter().map(|s| s.to_string()).collect();
         for v in [0u64, 1, 3, 5, 9] {
             for seq in call_sequences(&alpha, depth) { lines.push(format!("wm A it value {} : {}", v, seq.join(" "))); }
-            for r in 0..(n + 2) { lines.push(format!("wm A it sel {} {} : n n N1 n", r, v)); lines.push(format!("wm A it pred {} {} : n n n", r, v)); lines.push(format!("wm A it succ {} {} : n n n", r, v)); }
+            for r in 0..(n + 2) { lines.push(format!("wm A it sel {} {} : L c n n N1 L n c", r, v)); lines.push(format!("wm A it pred {} {} : L n c n n", r, v)); lines.push(format!("wm A it succ {} {} : L c n n n L", r, v)); }
         }
         lines.push("wm A into_iter".to_string());
         g.group(lines);
